@@ -281,9 +281,9 @@ func c08Leaders(c *Ctx) {
 	var bad []string
 	for _, want := range []string{
 		"rules[leader].Leader=true under [len(scc)>1]",
-		"rules[name].Leader=true under [!(len(scc)>1);ok]",
+		"rules[name].Leader=true under [len(scc)<=1;ok]",
 		"rules[name].LeftRecursive=true under [len(scc)>1]",
-		"rules[name].LeftRecursive=true under [!(len(scc)>1);ok]",
+		"rules[name].LeftRecursive=true under [len(scc)<=1;ok]",
 	} {
 		if !strings.Contains(joined, want) {
 			bad = append(bad, "missing `"+want+"`")
